@@ -224,6 +224,11 @@ def trace(mc, nsteps: int, snap=None, on_trial=None, at_yield=None, resnap=False
             if prev_name is not None:
                 hist = mc.move_history
                 verdict = hist[k][1] if k < len(hist) else "missing"
+                if verdict is not None and not isinstance(verdict, str):
+                    # criteria may hand back any truthy / falsy value (1, numpy booleans, ...): normalise for the monitors.
+                    # None stays None: "did not reach its criteria" and "criteria answered None" both must leave the
+                    # system as it was, which is all the monitors derive from it.
+                    verdict = bool(verdict)
                 if on_trial is not None:
                     on_trial(Trial(stepno, k, prev_name, verdict, prev_snap, s))
                     if resnap:
